@@ -127,7 +127,8 @@ func recoverOnlyInInterceptor(c *core.Ctx) {
 		}
 	}
 	c.Ok("inventory", p.Connect.Syntax[0].Pos(), "%d recover() call(s), %d outside %s", sites, bad, named.Obj().Name())
-	c.Floor("recover() calls", sites, 2)
+	// one shared frame is enough; that both closures run inside a frame is recover-shape's floor
+	c.Floor("recover() calls", sites, 1)
 }
 
 func unaryAlwaysDecodes(c *core.Ctx) {
